@@ -169,28 +169,88 @@ end XcmModel.C16
 namespace XcmModel.C16btls
 open XcmModel XcmModel.Btls
 
-/-- awaited condition 0 on a ready connection: no bell, nothing asked of the TCP socket below -/
-theorem C16_btls_idle_silent (s : St) (hs : s.state = .ready) (hp : Bool) :
-    connUpdate s 0 hp = (false, 0, true, false) := by
-  unfold connUpdate; simp [hs]
+/-- with no retained output `conn_update` is exactly its core -/
+theorem connUpdate_no_pend (s : St) (hp : s.pend = []) (cond : Nat) (p : Bool) :
+    connUpdate s cond p = connUpdateCore s cond p := by
+  unfold connUpdate; simp [hp]
 
-/-- RECEIVABLE awaited after xcm_receive has reported EAGAIN (OpenSSL wanted to read) and nothing is pending:
+/-- awaited condition 0 on a ready connection with nothing retained: no bell, nothing asked of the TCP socket below -/
+theorem C16_btls_idle_silent (s : St) (hs : s.state = .ready) (hp : s.pend = []) (p : Bool) :
+    connUpdate s 0 p = (false, 0, true, false) := by
+  rw [connUpdate_no_pend s hp]; unfold connUpdateCore; simp [hs]
+
+/-- awaited condition 0 with retained output: still no bell; the TCP socket below is watched only for what the
+flush needs (it becomes readable to the application when the flush can continue, which xcm_finish then does) -/
+theorem C16_btls_idle_flush_only (s : St) (hs : s.state = .ready) (hp : s.pend ≠ []) (p : Bool) :
+    connUpdate s 0 p = (false, (if s.pendWants ≠ 0 then s.pendWants else SENDABLE), true, false) := by
+  have hne : (s.pend.isEmpty = true) = False := by simp [hp]
+  unfold connUpdate connUpdateCore
+  simp [hs, hne]
+
+/-- RECEIVABLE awaited after xcm_receive has reported EAGAIN (OpenSSL wanted to read) and nothing is retained:
 no bell; the TCP socket below is watched for input only -/
-theorem C16_btls_quiet_after_eagain (s : St) (cap : Nat) (h : HAns)
-    (hs : (tryFinishHandshake s h).state = .ready) :
-    let r := receive s cap h (.ev .wantRead)
+theorem C16_btls_quiet_after_eagain (s : St) (cap : Nat) (h : HAns) (ws : List WAns)
+    (hs : (tryFinishHandshake s h).state = .ready) (hp : (tryFinishHandshake s h).pend = []) :
+    let r := receive s cap h ws (.ev .wantRead)
     r.2.1 = .err EAGAIN ∧ connUpdate r.1 RECEIVABLE false = (false, RECEIVABLE, true, false) := by
   unfold receive
-  generalize tryFinishHandshake s h = s1 at hs
-  simp [hs, processSslEvent, connUpdate, RECEIVABLE, Generated.XCM_SO_RECEIVABLE]
+  generalize tryFinishHandshake s h = s1 at hs hp
+  have hf : flushPending (s1.pend.length + 1) s1 ws = (s1, none, ws, 0) := by
+    simp [hp, flushPending]
+  simp only [hs, hf]
+  simp [hs, hp, readStep, processSslEvent, connUpdate, connUpdateCore, RECEIVABLE, Generated.XCM_SO_RECEIVABLE]
+
+/-- ... and with retained output whose flush is blocked too: still no bell; the TCP socket below is watched for input
+and for what the flush needs - so the application is woken exactly when its receive or the flush can progress, and
+the receive it then makes does flush (no wake-up without work: F-16a's spin cannot recur through this path) -/
+theorem C16_btls_quiet_after_eagain_retained (s : St) (cap : Nat) (hs : s.state = .ready) (hp : s.pend ≠ [])
+    (e : SslEv) (he : e = .wantRead ∨ e = .wantWrite) :
+    let r := receive s cap (.done .ok) [.ev e] (.ev .wantRead)
+    r.2.1 = .err EAGAIN ∧ r.2.2.2 = 1 ∧ r.1.pend = s.pend ∧
+    connUpdate r.1 RECEIVABLE false = (false, RECEIVABLE ||| (if e = .wantRead then RECEIVABLE else SENDABLE), true, false) := by
+  have ht : tryFinishHandshake s (.done .ok) = s := by unfold tryFinishHandshake; simp [hs]
+  have hne : s.pend.isEmpty = false := by cases hq : s.pend with | nil => exact absurd hq hp | cons a t => rfl
+  have hfu : flushPending (s.pend.length + 1) s [.ev e] =
+      ({ (processSslEvent { s with sslCondition := 0, sslWants := 0 } SENDABLE e) with
+           pendWants := (processSslEvent { s with sslCondition := 0, sslWants := 0 } SENDABLE e).sslWants },
+       some (.err EAGAIN), [], 1) := by
+    rcases he with he | he <;> subst he <;> simp [flushPending, hne, nextW, processSslEvent, hs]
+  unfold receive
+  rw [ht]
+  simp only [hs, hfu]
+  rcases he with he | he <;> subst he <;>
+    simp [hs, hne, hp, readStep, processSslEvent, connUpdate, connUpdateCore, RECEIVABLE, SENDABLE,
+          Generated.XCM_SO_RECEIVABLE, Generated.XCM_SO_SENDABLE]
+
+/-- SENDABLE awaited after xcm_send was refused outright (EAGAIN from the flush of retained output, or nothing
+could be retained): handled in C02; when xcm_send ACCEPTS bytes it could not pass to OpenSSL completely, the
+retained bytes keep the TCP socket watched until they are written - the refused-send spin (F-16a) cannot occur
+because a blocked SSL_write never leaves the application holding bytes that OpenSSL insists on seeing again -/
+theorem C16_btls_blocked_send_is_accepted (s : St) (buf : Bytes) (h : HAns) (ws : List WAns) (e : SslEv)
+    (hs : (tryFinishHandshake s h).state = .ready) (hp : (tryFinishHandshake s h).pend = [])
+    (hw : nextW ws = (.ev e, [])) (hb : buf ≠ [])
+    (hr : (processSslEvent { (tryFinishHandshake s h) with sslCondition := 0, sslWants := 0 } SENDABLE e).state = .ready) :
+    (send s buf h ws).2.1 = .n (min buf.length MAX_PENDING) [] ∧
+    (send s buf h ws).1.pend = buf.take MAX_PENDING := by
+  unfold send
+  generalize tryFinishHandshake s h = s1 at hs hp hr
+  simp only [hs]
+  have hf : flushPending (s1.pend.length + 1) s1 ws = (s1, none, ws, 0) := by
+    simp [hp, flushPending]
+  rw [hf]
+  simp only [hw]
+  generalize processSslEvent _ SENDABLE e = s3 at hr ⊢
+  simp [hr, hb]
+  exact Nat.min_comm _ _
 
 /-- the bell of a ready connection rings only for a stated reason: decrypted data is pending for a RECEIVABLE
 waiter, or OpenSSL has not reported a blocked operation of the awaited kind -/
 theorem C16_btls_bell_reason (s : St) (hs : s.state = .ready) (cond : Nat) (hp : Bool)
     (hb : (connUpdate s cond hp).1 = true) :
     cond ≠ 0 ∧ ((cond &&& RECEIVABLE ≠ 0 ∧ hp = true) ∨ s.sslCondition = 0 ∨ cond ≠ s.sslCondition) := by
+  rw [(connUpdate_core s cond hp).1] at hb
   revert hb
-  unfold connUpdate
+  unfold connUpdateCore
   simp only [hs]
   split
   · intro hb; cases hb
